@@ -195,6 +195,11 @@ def rotated (r angle : Int) : Outcome Int :=
   let s := r + angle
   if s > I32_MAX ∨ s < I32_MIN then .panic else .ok (snap (s % 360))
 
+/-- the overflow-free composition `(rotation.rem_euclid(360) + angle).rem_euclid(360)` followed by
+`set_rotation` — the form the repair of C16-F3 gives `create_rotated_page` (pre-staged; see
+`C16_rotatedRepaired_agrees`: identical to `rotated` wherever that does not panic) -/
+def rotatedRepaired (r angle : Int) : Outcome Int := .ok (snap ((r % 360 + angle) % 360))
+
 /-! ### the operations on page lists -/
 
 def pick (ps : List Src) (idx : List Nat) : List Out := idx.filterMap fun i => (ps[i]?).map copyPage
